@@ -33,7 +33,7 @@ pub fn def() -> PropDef {
 
 fn plan(tier: Tier) -> Vec<Unit> {
     match tier {
-        Tier::Quick => crate::util::split_budget("programs", 16_000, 250),
+        Tier::Quick => crate::util::split_budget("programs", 40_000, 400),
         Tier::Thorough => crate::util::split_budget("programs", 1_600_000, 2_500),
         Tier::Miri => crate::util::split_budget("programs", 4, 2),
     }
@@ -245,6 +245,13 @@ fn run_program_inner(init: &Dec, steps: &[Step], evals: &mut u64, digest: &mut V
                 if !(next == *f) || !(*f == next) { return Some(("step/eq-disagrees", format!("accumulator {} == fresh {} is false", got.tok(), Dec::of(f).tok()))); }
                 if next.cmp(f) != Ordering::Equal || f.cmp(&next) != Ordering::Equal { return Some(("step/cmp-disagrees", format!("accumulator {} cmp fresh {} is not Equal", got.tok(), Dec::of(f).tok()))); }
                 if hash_bytes(f) != hb { return Some(("step/hash-disagrees", format!("accumulator {} and the equal value {} feed different data to a Hasher", got.tok(), Dec::of(f).tok()))); }
+            }
+            // unequal neighbours written with more digits must not compare equal (scaled comparison paths)
+            for (extra, tail) in [(1i64, 5i32), (1, 1), (3, 1), (25, 1)] {
+                let up = BigDecimal::new(&nm.n * pow10(extra as u64) + tail, nm.s + extra);
+                if next == up || up == next || next.cmp(&up) != Ordering::Less || up.cmp(&next) != Ordering::Greater {
+                    return Some(("step/cmp-disagrees", format!("accumulator {} vs the larger value {}: == {} cmp {:?}", got.tok(), Dec::of(&up).tok(), next == up, next.cmp(&up))));
+                }
             }
             // an unequal neighbour must not compare equal
             let nb = BigDecimal::new(&nm.n + 1, nm.s);
